@@ -24,6 +24,7 @@ JudgeA ==
     CASE Ev.op = "ctor"  -> JudgeCtor(Ev)
       [] Ev.op = "enc"   -> JudgeEnc(Ev, usedIV, usedCt)
       [] Ev.op = "dec"   -> JudgeDec(Ev, encs)
+      [] Ev.op = "encmany" -> JudgeEncMany(Ev, usedCt)
       [] Ev.op = "ivset" -> "ok"
       [] OTHER -> "unknown-event"
 JudgeB ==
@@ -39,6 +40,10 @@ Update ==
     THEN /\ usedIV' = usedIV \cup {IvOf(Ev)}
          /\ usedCt' = usedCt \cup {Ev.ct}
          /\ encs' = encs \cup {[k |-> Ev.k, m |-> Ev.m, ct |-> Ev.ct]}
+    ELSE IF Ev.op = "encmany" /\ Ev.out = "ok"
+    THEN /\ usedCt' = usedCt \cup {Ev.cts[i] : i \in 1..Len(Ev.cts)}
+         /\ usedIV' = usedIV \cup {Take(Ev.cts[i], Block) : i \in 1..Len(Ev.cts)}
+         /\ UNCHANGED encs
     ELSE UNCHANGED svars
 
 Running == verdict = "run" /\ l <= Len(Tr)
